@@ -113,14 +113,109 @@ func (s *seq) run(base uint64, n int) {
 		s.send(base)
 	}
 	for k := 0; k < n; k++ {
+		before := s.cur
 		s.send(s.next())
 		if s.r.Chance(1, 25) {
 			s.emit("dump")
 			s.ops++
 		}
+		// after a jump: ask the pre-check about every counter of the window
+		if s.cur > before+1 && s.r.Chance(1, 5) && s.L <= 8192 {
+			s.emit("scan")
+			s.ops++
+		}
+	}
+	if s.L <= 8192 || s.r.Chance(1, 6) {
+		s.emit("scan")
+		s.ops++
 	}
 	s.emit("dump")
 	s.ops++
+}
+
+// steady emits a case that is past warm-up with a (mostly) fully received window: a long in-order run
+// whose head lands on / next to a 64-bit word boundary, then a short jump, then replays of the oldest
+// counters still inside the window, with a scan of the whole window after each phase.
+func (s *seq) steady() {
+	r, L := s.r, s.L
+	s.emit("reset %d", L)
+	s.ops++
+	s.cur = 0
+	s.sent = s.sent[:0]
+	var base uint64
+	switch r.Intn(6) {
+	case 0:
+		if L <= 1024 {
+			base = uint64(1)<<63 - uint64(r.Intn(300))
+		}
+	case 1:
+		if L <= 1024 {
+			base = top - 4*L - uint64(r.Intn(int(L))) // ends within a few windows of 2^64
+		}
+	case 2:
+		base = uint64(r.Intn(int(L)))
+	}
+	if base > 0 {
+		s.send(base)
+	}
+	// head of the run: past warm-up, at bit 62 / 63 / 0 of a word (sometimes anywhere)
+	head := base + L + uint64(r.Intn(130))
+	want := hlib.Pick(r, uint64(63), 63, 63, 63, 62, 0, uint64(r.Intn(64)))
+	for head%64 != want {
+		head++
+	}
+	cur := base
+	for cur < head {
+		piece := head - cur
+		if r.Chance(1, 3) && piece > 4 {
+			piece = uint64(r.Intn(int(piece-2))) + 1
+		}
+		s.emit("run %d %d", cur+1, piece)
+		s.ops++
+		s.sent = append(s.sent, cur+1, cur+piece, cur+1+uint64(r.Intn(int(piece))))
+		cur += piece
+		if cur+3 < head && r.Chance(1, 2) {
+			cur += uint64(r.Range(1, 2)) // a hole: these counters are lost (for now)
+		}
+	}
+	s.cur = head
+	if r.Chance(1, 3) {
+		s.emit("scan")
+		s.ops++
+	}
+	rounds := r.Range(1, 3)
+	for k := 0; k < rounds; k++ {
+		// a short jump: 1 .. 62 packets lost or late (sometimes exactly one word, or more)
+		gap := uint64(hlib.Pick(r, r.Range(2, 63), r.Range(2, 63), r.Range(2, 63), 2, 63, 64, 65, r.Range(66, 200)))
+		if s.cur > top-gap {
+			break
+		}
+		s.send(s.cur + gap)
+		s.emit("scan")
+		s.ops++
+		// replays of the oldest counters still in the window
+		for j := r.Range(1, 4); j > 0; j-- {
+			s.send(ssub(s.cur, L-1) + uint64(r.Intn(64)))
+		}
+		// walk on to the next word boundary
+		if k+1 < rounds {
+			next := s.cur + 1
+			for (next+uint64(r.Intn(2)))%64 != 63 {
+				next++
+			}
+			if next > s.cur {
+				s.emit("run %d %d", s.cur+1, next-s.cur)
+				s.ops++
+				s.cur = next
+			}
+		}
+	}
+	for k := r.Range(0, 6); k > 0; k-- {
+		s.send(s.next())
+	}
+	s.emit("scan")
+	s.emit("dump")
+	s.ops += 2
 }
 
 // exhaustive enumeration of all update sequences of length `depth` over the alphabet [0, 3L]
@@ -169,6 +264,11 @@ func gen(r *hlib.Rand, n int, tier, profile string, emit func(string, ...any)) {
 	}
 	s := &seq{r: r, emit: emit}
 	for s.ops < n {
+		if r.Chance(1, 3) {
+			s.L = hlib.Pick(r, uint64(64), 128, 128, 128, 256, 256, 1024, 8192)
+			s.steady()
+			continue
+		}
 		s.L = hlib.Pick(r, uint64(1), 2, 4, 8, 16, 32, 64, 64, 128, 128, 256, 1024, 8192, 8192, 8192, 65536)
 		var base uint64
 		switch r.Intn(8) {
@@ -212,6 +312,51 @@ func newExec(t *testing.T) func([]string) string {
 			ok := b.Update(l, hlib.Atou(a[1]))
 			cur, _ := nebula.VerifBitsState(b)
 			return fmt.Sprintf("%s %d", hlib.B(ok), cur)
+		case "run":
+			if b == nil {
+				return "bad-op"
+			}
+			from, cnt := hlib.Atou(a[1]), hlib.Atou(a[2])
+			acc := 0
+			for k := uint64(0); k < cnt; k++ {
+				if b.Update(l, from+k) {
+					acc++
+				}
+			}
+			cur, _ := nebula.VerifBitsState(b)
+			return fmt.Sprintf("%d %d", acc, cur)
+		case "scan":
+			if b == nil {
+				return "bad-op"
+			}
+			cur, _ := nebula.VerifBitsState(b)
+			lo, hi := ssub(cur, nebula.VerifBitsLength(b)+1), sadd(cur, 2)
+			var sb strings.Builder
+			fmt.Fprintf(&sb, "%d %d ", lo, hi)
+			last, cnt, first := false, 0, true
+			flush := func() {
+				if cnt > 0 {
+					if !first {
+						sb.WriteByte(',')
+					}
+					first = false
+					fmt.Fprintf(&sb, "%sx%d", hlib.B(last), cnt)
+				}
+			}
+			for c := lo; ; c++ {
+				v := b.Check(l, c)
+				if cnt > 0 && v != last {
+					flush()
+					cnt = 0
+				}
+				last = v
+				cnt++
+				if c == hi {
+					break
+				}
+			}
+			flush()
+			return sb.String()
 		case "dump":
 			if b == nil {
 				return "bad-op"
